@@ -79,6 +79,11 @@ func (m *Module) addDataDefinitionWithoutOwning(d Definition) error {
 }
 
 func (m *Module) indexDataDefinition(def Definition) error {
+	if _, isUses := def.(*Uses); isUses {
+		// not a node: a uses is named after its grouping, and groupings have a namespace
+		// of their own (RFC7950 Sec 6.2.1), a leaf may have the same name
+		return nil
+	}
 	if m.dataDefsIndex == nil {
 		m.dataDefsIndex = make(map[string]Definition)
 	} else if _, exists := m.dataDefsIndex[def.Ident()]; exists {
@@ -547,6 +552,11 @@ func (m *ChoiceCase) addDataDefinitionWithoutOwning(d Definition) error {
 }
 
 func (m *ChoiceCase) indexDataDefinition(def Definition) error {
+	if _, isUses := def.(*Uses); isUses {
+		// not a node: a uses is named after its grouping, and groupings have a namespace
+		// of their own (RFC7950 Sec 6.2.1), a leaf may have the same name
+		return nil
+	}
 	if m.dataDefsIndex == nil {
 		m.dataDefsIndex = make(map[string]Definition)
 	} else if _, exists := m.dataDefsIndex[def.Ident()]; exists {
@@ -754,6 +764,11 @@ func (m *Container) addDataDefinitionWithoutOwning(d Definition) error {
 }
 
 func (m *Container) indexDataDefinition(def Definition) error {
+	if _, isUses := def.(*Uses); isUses {
+		// not a node: a uses is named after its grouping, and groupings have a namespace
+		// of their own (RFC7950 Sec 6.2.1), a leaf may have the same name
+		return nil
+	}
 	if m.dataDefsIndex == nil {
 		m.dataDefsIndex = make(map[string]Definition)
 	} else if _, exists := m.dataDefsIndex[def.Ident()]; exists {
@@ -1053,6 +1068,11 @@ func (m *List) addDataDefinitionWithoutOwning(d Definition) error {
 }
 
 func (m *List) indexDataDefinition(def Definition) error {
+	if _, isUses := def.(*Uses); isUses {
+		// not a node: a uses is named after its grouping, and groupings have a namespace
+		// of their own (RFC7950 Sec 6.2.1), a leaf may have the same name
+		return nil
+	}
 	if m.dataDefsIndex == nil {
 		m.dataDefsIndex = make(map[string]Definition)
 	} else if _, exists := m.dataDefsIndex[def.Ident()]; exists {
@@ -1928,6 +1948,11 @@ func (m *Grouping) addDataDefinitionWithoutOwning(d Definition) error {
 }
 
 func (m *Grouping) indexDataDefinition(def Definition) error {
+	if _, isUses := def.(*Uses); isUses {
+		// not a node: a uses is named after its grouping, and groupings have a namespace
+		// of their own (RFC7950 Sec 6.2.1), a leaf may have the same name
+		return nil
+	}
 	if m.dataDefsIndex == nil {
 		m.dataDefsIndex = make(map[string]Definition)
 	} else if _, exists := m.dataDefsIndex[def.Ident()]; exists {
@@ -2401,6 +2426,11 @@ func (m *RpcInput) addDataDefinitionWithoutOwning(d Definition) error {
 }
 
 func (m *RpcInput) indexDataDefinition(def Definition) error {
+	if _, isUses := def.(*Uses); isUses {
+		// not a node: a uses is named after its grouping, and groupings have a namespace
+		// of their own (RFC7950 Sec 6.2.1), a leaf may have the same name
+		return nil
+	}
 	if m.dataDefsIndex == nil {
 		m.dataDefsIndex = make(map[string]Definition)
 	} else if _, exists := m.dataDefsIndex[def.Ident()]; exists {
@@ -2582,6 +2612,11 @@ func (m *RpcOutput) addDataDefinitionWithoutOwning(d Definition) error {
 }
 
 func (m *RpcOutput) indexDataDefinition(def Definition) error {
+	if _, isUses := def.(*Uses); isUses {
+		// not a node: a uses is named after its grouping, and groupings have a namespace
+		// of their own (RFC7950 Sec 6.2.1), a leaf may have the same name
+		return nil
+	}
 	if m.dataDefsIndex == nil {
 		m.dataDefsIndex = make(map[string]Definition)
 	} else if _, exists := m.dataDefsIndex[def.Ident()]; exists {
@@ -2883,6 +2918,11 @@ func (m *Notification) addDataDefinitionWithoutOwning(d Definition) error {
 }
 
 func (m *Notification) indexDataDefinition(def Definition) error {
+	if _, isUses := def.(*Uses); isUses {
+		// not a node: a uses is named after its grouping, and groupings have a namespace
+		// of their own (RFC7950 Sec 6.2.1), a leaf may have the same name
+		return nil
+	}
 	if m.dataDefsIndex == nil {
 		m.dataDefsIndex = make(map[string]Definition)
 	} else if _, exists := m.dataDefsIndex[def.Ident()]; exists {
@@ -3150,6 +3190,11 @@ func (m *Augment) addDataDefinitionWithoutOwning(d Definition) error {
 }
 
 func (m *Augment) indexDataDefinition(def Definition) error {
+	if _, isUses := def.(*Uses); isUses {
+		// not a node: a uses is named after its grouping, and groupings have a namespace
+		// of their own (RFC7950 Sec 6.2.1), a leaf may have the same name
+		return nil
+	}
 	if m.dataDefsIndex == nil {
 		m.dataDefsIndex = make(map[string]Definition)
 	} else if _, exists := m.dataDefsIndex[def.Ident()]; exists {
@@ -4112,6 +4157,11 @@ func (m *Extension) addDataDefinitionWithoutOwning(d Definition) error {
 }
 
 func (m *Extension) indexDataDefinition(def Definition) error {
+	if _, isUses := def.(*Uses); isUses {
+		// not a node: a uses is named after its grouping, and groupings have a namespace
+		// of their own (RFC7950 Sec 6.2.1), a leaf may have the same name
+		return nil
+	}
 	if m.dataDefsIndex == nil {
 		m.dataDefsIndex = make(map[string]Definition)
 	} else if _, exists := m.dataDefsIndex[def.Ident()]; exists {
